@@ -410,3 +410,52 @@ Proof. vm_compute. reflexivity. Qed.
 '''),
     ],
 }
+
+MS_IMPORTS = """From Coq Require Import String.
+From Coq Require Import List NArith Bool Arith.
+From SV Require Import Bytes Base64 Client Transport Server Session WriterFacts StatusFacts SessionFacts.
+Import ListNotations.
+Local Open Scope nat_scope.
+"""
+
+SPEC["C15"] = {
+    "header": """C15 — the client's view of the server stays correct over whole sessions.
+
+   Composition (IronFleet style) of the wire theorems against the reference server of ms/Server.v,
+   proved in ms/SessionFacts.v for the operations whose reply is a single status line (HAVESPACE,
+   PUTSCRIPT, CHECKSCRIPT, DELETESCRIPT, SETACTIVE, native RENAMESCRIPT):
+     writer      C08  the strict parser reads back exactly the command the client wrote;
+     server           parses it, executes it on its abstract state, renders a status reply with
+                      whatever encoding choice comes next (text absent / quoted / literal, response code);
+     reader      C09  the client's result mirrors that reply and exactly the reply is consumed.
+   Hence (C15_step) the result of the call is the abstract answer of the server state at that moment,
+   the server received exactly one well-formed command in a legal state and moved to the abstract
+   successor state, and nothing is left in either buffer; by induction (C15_session) this holds for every
+   session of such operations the reference server accepts, of any length, for every sequence of encoding
+   choices.  Segmentation independence of every operation is C05 (interp agrees with the stream
+   semantics used here).  LISTSCRIPTS / GETSCRIPT / the emulated rename are composed in the
+   correspondence check (model client vs real client vs server state after every step of generated
+   sessions), not in Coq: the assembling step of read_response with quoted literals is not proved.""",
+    "imports": MS_IMPORTS,
+    "theorems": [
+        ("C15_server_receives_one_command", "SessionFacts.srv_react_simple",
+         "the reference server, in step and authenticated, receiving the bytes of one single-status command: it parses exactly that command, answers with one status reply rendered from its abstract answer, and is in step again"),
+        ("C15_step", "SessionFacts.simple_cmd_against_server",
+         "one operation end to end: result = abstract answer, server state = abstract successor, both buffers empty"),
+        ("C15_session", "SessionFacts.session_in_step",
+         "whole sessions, no length bound: results, final client fields and final server state are those of the abstract session"),
+        ("raw", r'''(* what the abstract session is: the server's own exec_command, command by command *)
+Example C15_session_example :
+  match abs_session [OPutscript (bs "b") (bs "stop;"); ODeletescript (bs "a"); OSetactive (bs "b");
+                     ODeletescript (bs "a"); OPutscript (bs "c") (bs "x"); ORenamescript (bs "b") (bs "a")]
+                    demo_server (mkC true None [] [(bs "VERSION", Some (bs "1.0"))]) with
+  | Some (outs, _, s') =>
+      map (fun o => match o with ODone (VBool b) _ => Some b | _ => None end) outs
+      = [Some true; Some false; Some true; Some true; Some true; Some true]
+      /\ s_store s' = [(bs "a", bs "stop;"); (bs "c", bs "x")] /\ s_active s' = Some (bs "a")
+  | None => False
+  end.
+Proof. vm_compute. repeat split. Qed.
+'''),
+    ],
+}
